@@ -309,6 +309,10 @@ func RunCLI(p *Program, exitCode bool) (int, string, error) {
 	defer cancel()
 	cmd := exec.CommandContext(ctx, rep.Root+"/.work/bin/task", args...)
 	cmd.Dir = dir
+	if p.Force || p.ForceAll {
+		// --force for the directly called task only / --force-all exist under the gentle-force experiment
+		cmd.Env = append(os.Environ(), "TASK_X_GENTLE_FORCE=1")
+	}
 	cmd.Cancel = func() error { return cmd.Process.Kill() }
 	var out bytes.Buffer
 	cmd.Stderr = &out
